@@ -219,6 +219,14 @@ def verify_guard(f, s, entry):
     g = entry.get("guard")
     if not g:
         return True, ""
+    if "any" in g:
+        why = []
+        for sub in g["any"]:
+            ok, text = verify_guard(f, s, {"guard": sub})
+            if ok:
+                return True, text
+            why.append(text)
+        return False, "none of the accepted forms of the guard holds here: " + "; ".join(why[:2])
     if "cond" in g:
         want = g.get("value", True)
         needles = g["cond"] if isinstance(g["cond"], list) else [g["cond"]]
